@@ -95,7 +95,7 @@ func ProfileFor(name string) Profile {
 	case "c20":
 		return Profile{Name: name, Tables: 1, PKSingle: 1, UniqP: 1, NotNullP: 0.1, DefaultP: 0.2, Auto: true,
 			W:      map[string]int{"insert": 40, "ignore": 12, "replace": 1, "update": 8, "delete": 16, "truncate": 2, "alterauto": 6, "lastid": 14},
-			ReuseP: 0.5, NullP: 0.2, OmitP: 0.5, MinLen: 10, MaxLen: 40}
+			ReuseP: 0.5, NullP: 0.2, OmitP: 0.5, MinLen: 10, MaxLen: 34}
 	}
 	panic("unknown profile " + name)
 }
@@ -508,17 +508,24 @@ func (g *Gen) genCheckExpr(t *Table) *Expr {
 	if ca.Ty == "i" {
 		// bounds that the rows built from the ordinary value pool (0..7) mostly satisfy and that the far values
 		// of farExpr (ON DUPLICATE KEY UPDATE / UPDATE of a column the generated column reads) mostly break
-		switch g.pick(5) {
-		case 0:
+		switch x := g.pick(10); {
+		case x < 2:
 			return sqlast.Op("ge", ra, Lit(sqlast.Int(-4-g.pick(3))))
-		case 1:
+		case x < 4:
 			return sqlast.Op("le", ra, Lit(sqlast.Int(11+g.pick(5))))
-		case 2:
+		case x < 5:
 			return sqlast.Op("ne", ra, Lit(sqlast.Int(2+g.pick(6))))
-		case 3:
+		case x < 9:
 			return sqlast.Op("between", ra, Lit(sqlast.Int(-4-g.pick(3))), Lit(sqlast.Int(11+g.pick(5))))
 		default:
-			if o := g.baseCols(t, "i", a); len(o) > 0 {
+			// against a base column the generated column does not read
+			var o []int
+			for _, b := range g.baseCols(t, "i", a) {
+				if !RefersTo(ca.Gen, map[int]bool{b: true}) {
+					o = append(o, b)
+				}
+			}
+			if len(o) > 0 {
 				b := o[g.pick(len(o))]
 				return sqlast.Op("le", ra, sqlast.Op("plus", ColRef(b, t.Cols[b-1]), Lit(sqlast.Int(9))))
 			}
@@ -729,6 +736,10 @@ func (g *Gen) Statements(n int) {
 		tn := g.H.Names[g.pick(len(g.H.Names))]
 		t := g.H.Tables[tn]
 		kind := g.weighted(g.P.W)
+		if g.P.GenWide && (kind == "ignore" || kind == "delete" || kind == "replace" || kind == "insert") && g.chance(0.3) && g.upsertTarget(t) {
+			// more upserts where they matter: a keyed table with a CHECK over a generated column whose sources can be assigned
+			kind = "odku"
+		}
 		var s *Stmt
 		switch kind {
 		case "insert":
@@ -938,6 +949,32 @@ func genSources(t *Table) map[int]bool {
 	return m
 }
 
+// upsertTarget: the table has a key, and a CHECK reads a generated column that reads an assignable base column.
+func (g *Gen) upsertTarget(t *Table) bool {
+	if len(t.PK) == 0 && len(t.Uniq) == 0 {
+		return false
+	}
+	genCols := map[int]bool{}
+	for i, c := range t.Cols {
+		if c.HasGen {
+			genCols[i+1] = true
+		}
+	}
+	reads := false
+	for _, ck := range t.Checks {
+		reads = reads || RefersTo(ck, genCols)
+	}
+	if !reads {
+		return false
+	}
+	for _, h := range checkedGenSources(t) {
+		if !g.roleOf(t, h).inPK {
+			return true
+		}
+	}
+	return false
+}
+
 // checkedGenSources: base columns read by a generated column that a CHECK reads (changing one of them
 // moves the generated value the CHECK judges); all generated-column sources if no CHECK reads a generated column.
 func checkedGenSources(t *Table) []int {
@@ -1132,7 +1169,7 @@ func (g *Gen) insert(tn string, t *Table, mode string) *Stmt {
 				for _, h := range hot {
 					isHot = isHot || h == c
 				}
-				if isHot && col.Ty == "i" && g.chance(0.5) {
+				if isHot && col.Ty == "i" && g.chance(0.65) {
 					odku = append(odku, SetItem{Col: c, E: g.farExpr(c, col)})
 					continue
 				}
